@@ -226,6 +226,112 @@ func (g *gen) e2eScenario(meas string, seq *int64) []e2eReq {
 	return reqs
 }
 
+// Sparse, out-of-time-order batches: ONE request with 3..8 points of one measurement whose timestamps
+// are in a non-involutive order (3-cycles, rotations, shuffles: p∘p ≠ id, so a scatter/gather mix-up
+// of the flush-time sort cannot cancel out) and whose points carry different subsets of the fields
+// and tags. Zero values (0, 0.0, "", false) are frequent so that NULL and zero are told apart.
+func nonInvolutive(g *gen, k int) []int {
+	for {
+		p := make([]int, k)
+		for i := range p {
+			p[i] = i
+		}
+		switch g.r.Intn(3) {
+		case 0: // rotation by 1..k-1 (k>=3: not an involution unless 2*shift == k)
+			sh := g.r.Range(1, k-1)
+			for i := range p {
+				p[i] = (i + sh) % k
+			}
+		default:
+			for i := k - 1; i > 0; i-- {
+				j := g.r.Intn(i + 1)
+				p[i], p[j] = p[j], p[i]
+			}
+		}
+		for i := range p {
+			if p[p[i]] != i {
+				return p
+			}
+		}
+	}
+}
+
+func zeroish(g *gen, t byte) fval {
+	if g.r.Chance(45) {
+		switch t {
+		case 'f':
+			return fval{kind: 'f', text: "0", f: 0}
+		case 'i':
+			return fval{kind: 'i', text: "0i", i: 0}
+		case 's':
+			return fval{kind: 's', s: nil}
+		case 'b':
+			return fval{kind: 'b', text: "false", b: false}
+		}
+	}
+	return g.valueOfKind(t)
+}
+
+func (g *gen) e2eSparse(meas string, seq *int64, minimal bool) []e2eReq {
+	k := g.r.Range(3, 8)
+	perm := nonInvolutive(g, k)
+	nf, nt := g.r.Range(2, 5), g.r.Range(0, 3)
+	ftypes := make([]byte, nf)
+	for i := range ftypes {
+		ftypes[i] = vh.Pick(g.r, []byte("fisb"))
+	}
+	if minimal { // timestamps 3,1,2 ; fields {a} {b} {a,b}
+		k, perm, nf, nt, ftypes = 3, []int{2, 0, 1}, 2, 0, []byte("ii")
+	}
+	base := *seq
+	*seq += int64(k)
+	var req e2eReq
+	for i := 0; i < k; i++ {
+		p := &point{meas: []byte(meas), hasTs: true, ts: e2eTsBase + (base+1+int64(perm[i]))*1_000_003, sp1: 1, sp2: 1}
+		for t := 0; t < nt; t++ {
+			if g.r.Chance(60) {
+				p.tags = append(p.tags, kv{[]byte(fmt.Sprintf("t%d", t)), []byte(fmt.Sprintf("v%d", g.r.Intn(3)))})
+			}
+		}
+		for f := 0; f < nf; f++ {
+			present := g.r.Chance(55)
+			if minimal {
+				present = (i == 0 && f == 0) || (i == 1 && f == 1) || i == 2
+			}
+			if present {
+				v := zeroish(g, ftypes[f])
+				if minimal {
+					v = fval{kind: 'i', text: strconv.Itoa(10*(i+1)+f) + "i", i: int64(10*(i+1) + f)}
+				}
+				p.fields = append(p.fields, fkv{[]byte(fmt.Sprintf("f%d", f)), v})
+			}
+		}
+		if len(p.fields) == 0 {
+			f := g.r.Intn(nf)
+			p.fields = append(p.fields, fkv{[]byte(fmt.Sprintf("f%d", f)), zeroish(g, ftypes[f])})
+		}
+		line, _ := p.render()
+		if len(req.body) > 0 {
+			req.body = append(req.body, '\n')
+		}
+		req.body = append(req.body, line...)
+		req.points = append(req.points, p)
+	}
+	return []e2eReq{req}
+}
+
+func sameColumns(a, b e2eRow) bool {
+	if len(a) != len(b) {
+		return false
+	}
+	for k := range a {
+		if _, ok := b[k]; !ok {
+			return false
+		}
+	}
+	return true
+}
+
 func e2eStage(c *vh.Ctx, g *gen, scenarios int) {
 	root, err := os.MkdirTemp("/var/tmp", "verif-c01-e2e-")
 	if err != nil {
@@ -246,14 +352,22 @@ func e2eStage(c *vh.Ctx, g *gen, scenarios int) {
 		}
 		buf := ingest.NewArrowBuffer(cfg, st, zerolog.Nop())
 		type scen struct {
-			meas string
-			reqs []e2eReq
+			meas   string
+			reqs   []e2eReq
+			sparse bool
 		}
 		var scens []scen
 		var flushErrs []string
 		for k := 0; k < perBuffer && done < scenarios; k++ {
 			meas := fmt.Sprintf("e2e_%d", done)
-			reqs := g.e2eScenario(meas, &seq)
+			sparse := done%3 == 1
+			var reqs []e2eReq
+			if sparse {
+				reqs = g.e2eSparse(meas, &seq, done == 1)
+				c.Tag("e2e:sparse-out-of-order-batch")
+			} else {
+				reqs = g.e2eScenario(meas, &seq)
+			}
 			accepted := reqs[:0]
 			for _, rq := range reqs {
 				recs := parser.ParseBatchWithPrecision(rq.body, "us")
@@ -276,7 +390,7 @@ func e2eStage(c *vh.Ctx, g *gen, scenarios int) {
 					c.Tag("e2e:flush-between-requests")
 				}
 			}
-			scens = append(scens, scen{meas, accepted})
+			scens = append(scens, scen{meas, accepted, sparse})
 			done++
 		}
 		if err := buf.FlushAll(ctx); err != nil {
@@ -321,6 +435,9 @@ func e2eStage(c *vh.Ctx, g *gen, scenarios int) {
 							fmt.Sprintf("a point of an accepted request is in no parquet file after FlushAll (%d of the measurement's rows stored): %s", len(stored), rowKey(want)), replay())
 					case len(got) > 1:
 						c.Fail("stored-differs:end-to-end:duplicate", "a point is stored more than once: "+rowKey(want), replay())
+					case rowKey(got[0]) != rowKey(want) && sc.sparse && !sameColumns(got[0], want):
+						c.Fail("field-set-changed:out-of-order-sparse-batch",
+							fmt.Sprintf("a request with out-of-time-order points carrying different field sets: after the flush-time sort the point %s is stored as %s (a field it was written with is NULL and/or a field it never had holds a zero value)", rowKey(want), rowKey(got[0])), replay())
 					case rowKey(got[0]) != rowKey(want):
 						c.Fail("stored-differs:end-to-end:cell", fmt.Sprintf("stored row %s differs from the point %s", rowKey(got[0]), rowKey(want)), replay())
 					default:
